@@ -19,6 +19,28 @@ theorem parked_ok {cfg : Cfg} {s : State} {k : Nat} (hk : k ≤ s.epoch) (hd : c
   | true => simp only [if_true]; exact ⟨hk, fun _ he => connDead_spec hd he, Nat.le_refl _⟩
   | false => simp; exact hk
 
+theorem inv_seenStep {snap : Bool} {s s' : State} {r : Nat} (hI : Inv snap s) (h : seenStep s r = some s') :
+    Inv snap s' := by
+  simp only [seenStep] at h
+  split at h
+  · rename_i q hq
+    obtain ⟨h1, h2, h3, h4, h5, h6, h7, h8, h9⟩ := hI.req r q hq
+    split at h
+    · rename_i k hp
+      split at h
+      · cases h
+        obtain ⟨a, b, c⟩ := h2 k hp
+        apply inv_setReq hI r q _ hq
+        refine ⟨by simp, by simp, by simp, ?_, by simp, by simp, by simp, by simp, by simp⟩
+        intro a' ha'
+        simp at ha'
+        subst ha'
+        exact ⟨b, c⟩
+      · cases h; exact hI
+    · cases h
+    · cases h; exact hI
+  · cases h
+
 theorem inv_step (cfg : Cfg) {s s' : State} (a : Action) (hI : Inv cfg.snapshotBeforeInvoke s)
     (h : step cfg s a = some s') : Inv cfg.snapshotBeforeInvoke s' := by
   cases a with
@@ -218,23 +240,20 @@ theorem inv_step (cfg : Cfg) {s s' : State} (a : Action) (hI : Inv cfg.snapshotB
     · cases h
   | seen r =>
     simp only [step] at h
+    exact inv_seenStep hI h
+  | rd r k =>
+    simp only [step] at h
     split at h
     · rename_i q hq
-      obtain ⟨h1, h2, h3, h4, h5, h6, h7, h8, h9⟩ := hI.req r q hq
       split at h
-      · rename_i k hp
-        split at h
-        · cases h
-          obtain ⟨a, b, c⟩ := h2 k hp
-          apply inv_setReq hI r q _ hq
-          refine ⟨by simp, by simp, by simp, ?_, by simp, by simp, by simp, by simp, by simp⟩
-          intro a' ha'
-          simp at ha'
-          subst ha'
-          exact ⟨b, c⟩
-        · cases h; exact hI
       · cases h
+        exact inv_setReq hI r q _ hq (hI.req r q hq)
       · cases h; exact hI
+    · cases h
+  | killw =>
+    simp only [step] at h
+    split at h
+    · cases h; exact inv_mono hI rfl (Nat.le_refl _) rfl (fun h => h) (fun _ _ => rfl)
     · cases h
   | kill =>
     simp only [step] at h
